@@ -631,7 +631,7 @@ void MemoryLeakDetector::checkForCorruption(MemoryLeakDetectorNode* node, const 
         outputBuffer_.reportAllocationDeallocationMismatchFailure(node, file, line, allocator->actualAllocator(), reporter_);
     else if (!validMemoryCorruptionInformation(node->memory_ + node->size_))
         outputBuffer_.reportMemoryCorruptionFailure(node, file, line, allocator->actualAllocator(), reporter_);
-    else if (allocateNodesSeperately)
+    else if (allocateNodesSeperately && node != getNodeFromMemoryPointer(node->memory_, node->size_)) /* not a node that lives inside the block (another family allocated it) */
         allocator->freeMemoryLeakNode((char*) node);
 }
 
@@ -745,10 +745,11 @@ char* MemoryLeakDetector::reallocMemory(TestMemoryAllocator* allocator, char* me
         /* a separately allocated node is kept until the reallocation succeeded */
         checkForCorruption(node, file, line, allocator, false);
     }
+    const bool oldNodeIsSeparate = node && node != getNodeFromMemoryPointer(node->memory_, node->size_);
     char* new_memory = reallocateMemoryAndLeakInformation(allocator, memory, size, file, line, allocatNodesSeperately);
     if (node) {
         if (new_memory == NULLPTR) memoryTable_.addNewNode(node); /* the old block is untouched: it stays valid and tracked */
-        else if (allocatNodesSeperately) allocator->freeMemoryLeakNode((char*) node);
+        else if (oldNodeIsSeparate) allocator->freeMemoryLeakNode((char*) node);
     }
     return new_memory;
 }
